@@ -288,6 +288,13 @@ func (e *env) run(in Input) Obs {
 			tx = tx.Select("mark")
 		case "omit":
 			tx = tx.Omit("name")
+		case "omit_pk":
+			// Select / Omit naming the key column restrict the assignments, never the conditions
+			tx = tx.Omit("id")
+		case "omit_pk_field":
+			tx = tx.Omit("ID", "Name")
+		case "select_pk":
+			tx = tx.Select("id", "mark")
 		case "table":
 			tx = tx.Table(table)
 		case "scopes":
@@ -392,6 +399,19 @@ func (e *env) run(in Input) Obs {
 				res = tx.Updates(&whr.TS{ID: in.PK, Mark: 7})
 			} else {
 				res = tx.Updates(&whr.T{ID: in.PK, Mark: 7})
+			}
+		case "updates_structval_nomodel":
+			// the same by value: the value is the model but not addressable
+			if in.Soft {
+				res = tx.Updates(whr.TS{ID: in.PK, Mark: 7})
+			} else {
+				res = tx.Updates(whr.T{ID: in.PK, Mark: 7})
+			}
+		case "update_columns_struct_nomodel":
+			if in.Soft {
+				res = tx.UpdateColumns(&whr.TS{ID: in.PK, Mark: 7})
+			} else {
+				res = tx.UpdateColumns(&whr.T{ID: in.PK, Mark: 7})
 			}
 		case "update_pk":
 			// the update values name the primary-key column: still no condition
@@ -583,6 +603,33 @@ func runTarget(tx *gorm.DB, in Input, table string) *gorm.DB {
 			return sel.Model(owner).Updates(map[string]interface{}{"mark": 7})
 		}
 		return sel.Model(owner).Update("mark", 7)
+	case "slice_late", "slice_ptrs_late", "array_late":
+		// the key (if any) is in a later element only
+		var sl interface{}
+		switch {
+		case in.Target == "slice_late" && in.Soft:
+			sl = &[]whr.TS{{}, {ID: in.PK}}
+		case in.Target == "slice_late":
+			sl = &[]whr.T{{}, {ID: in.PK}, {}}
+		case in.Target == "slice_ptrs_late" && in.Soft:
+			sl = &[]*whr.TS{{}, {}, {ID: in.PK}}
+		case in.Target == "slice_ptrs_late":
+			sl = &[]*whr.T{{}, {ID: in.PK}}
+		case in.Soft:
+			sl = &[2]whr.TS{{}, {ID: in.PK}}
+		default:
+			sl = &[2]whr.T{{}, {ID: in.PK}}
+		}
+		if in.Finisher == "delete" {
+			return tx.Delete(sl)
+		}
+		if in.Finisher == "delete_model_dest" {
+			if in.Soft {
+				return tx.Model(sl).Delete(&whr.TS{})
+			}
+			return tx.Model(sl).Delete(&whr.T{})
+		}
+		return upd(tx.Model(sl))
 	case "slice":
 		var sl interface{}
 		k2 := in.PK
@@ -635,6 +682,10 @@ func hasDeco(steps []Step, deco string) bool {
 	return false
 }
 
+func hasSelect(steps []Step) bool {
+	return hasDeco(steps, "select") || hasDeco(steps, "select_pk")
+}
+
 func hasUnscoped(steps []Step) bool {
 	for _, s := range steps {
 		if s.Deco == "unscoped" {
@@ -679,11 +730,69 @@ func keyVals(in Input) (del bool, vals string) {
 			k2++
 		}
 		return del, list(sl(rec(z(in.PK)), rec(z(k2))))
+	case "slice_late", "slice_ptrs_late", "array_late":
+		m := sl(rec("true"), rec(z(in.PK)))
+		if in.Target == "slice_late" && !in.Soft {
+			m = sl(rec("true"), rec(z(in.PK)), rec("true"))
+		}
+		if in.Target == "slice_ptrs_late" && in.Soft {
+			m = sl(rec("true"), rec("true"), rec(z(in.PK)))
+		}
+		if in.Finisher == "delete_model_dest" {
+			return del, list(st(rec("true")), m)
+		}
+		return del, list(m)
 	}
 	if in.Finisher == "delete_value_slice" {
 		return del, list(sl(rec(z(in.PK))))
 	}
+	if in.Finisher == "updates_struct_nomodel" || in.Finisher == "update_columns_struct_nomodel" {
+		// the update value is the model itself: the loop over the schema's columns, each with what
+		// Select / Omit say about it
+		sel := selState(in.Steps)
+		cols := []string{}
+		names := []string{"id", "age", "name", "nick", "mark"}
+		if in.Soft {
+			names = append(names, "deleted_at")
+		}
+		for _, c := range names {
+			zero := c != "mark" && !(c == "id" && in.PK != 0)
+			cols = append(cols, lib.App("mk_col", lib.Bool(c == "id"), lib.Bool(zero), sel[c]))
+		}
+		return del, list(lib.App("VSelf", "["+strings.Join(cols, "; ")+"]"))
+	}
 	return del, list(st(rec(z(in.PK))))
+}
+
+// selState: what Statement.SelectAndOmitColumns yields for the columns of the test models after the
+// chain's Select / Omit decorations (a later Select replaces an earlier one, likewise Omit)
+func selState(steps []Step) map[string]string {
+	var selects, omits []string
+	for _, s := range steps {
+		switch s.Deco {
+		case "select":
+			selects = []string{"mark"}
+		case "select_pk":
+			selects = []string{"id", "mark"}
+		case "omit":
+			omits = []string{"name"}
+		case "omit_pk":
+			omits = []string{"id"}
+		case "omit_pk_field":
+			omits = []string{"id", "name"}
+		}
+	}
+	out := map[string]string{}
+	for _, c := range []string{"id", "age", "name", "nick", "mark", "deleted_at"} {
+		out[c] = "None"
+	}
+	for _, c := range selects {
+		out[c] = "(Some true)"
+	}
+	for _, c := range omits {
+		out[c] = "(Some false)"
+	}
+	return out
 }
 
 func term(in Input, o Obs) string {
@@ -707,7 +816,8 @@ func term(in Input, o Obs) string {
 	return lib.App("mk_case", whr.GTable(in.Atoms, o.Texts), whr.GCalls(calls, byID),
 		lib.Bool(in.Soft), lib.Bool(in.Allow != "off"), lib.Bool(hasUnscoped(in.Steps) || in.AfterRead == "unscoped"), lib.Bool(kdel), kvals,
 		lib.Bool(o.Missing), lib.Z(int64(o.Execs)), lib.Bool(o.Changed), lib.Bool(o.OtherErr != ""),
-		lib.ListOf([]byte(o.TxEvents), func(b byte) string { return lib.Z(int64(strings.IndexByte("bcr", b))) }))
+		lib.ListOf([]byte(o.TxEvents), func(b byte) string { return lib.Z(int64(strings.IndexByte("bcr", b))) }),
+		whr.GArgsOfCalls(calls, byID))
 }
 
 func shape(in Input) string {
@@ -736,14 +846,14 @@ func alphabet() []Step {
 		{Call: &whr.Call{Kind: "not", Unit: whr.Unit{Form: "empty_struct", Via: "slice"}}},
 		{Call: &whr.Call{Kind: "where", Unit: whr.Unit{Form: "group"}}},
 		{Call: &whr.Call{Kind: "or", Unit: whr.Unit{Form: "group"}}},
-		{Deco: "empty_slice"}, {Deco: "empty_array"}, {Deco: "not_empty_array"}, {Deco: "or_empty_array"}, {Deco: "order"}, {Deco: "limit"}, {Deco: "unscoped"}, {Deco: "select"}, {Deco: "omit"}, {Deco: "table"}, {Deco: "scopes"},
+		{Deco: "empty_slice"}, {Deco: "empty_array"}, {Deco: "not_empty_array"}, {Deco: "or_empty_array"}, {Deco: "order"}, {Deco: "limit"}, {Deco: "unscoped"}, {Deco: "select"}, {Deco: "omit"}, {Deco: "omit_pk"}, {Deco: "omit_pk_field"}, {Deco: "select_pk"}, {Deco: "table"}, {Deco: "scopes"},
 		{Deco: "session_pu"}, {Deco: "session_misc"}, {Deco: "session_plain"}, {Deco: "session_dryrun"},
 		{Deco: "offset"}, {Deco: "distinct"}, {Deco: "group"}, {Deco: "joins_raw"}, {Deco: "returning"}, {Deco: "locking"},
 		{Deco: "with_context"}, {Deco: "set"}, {Deco: "scope_empty_where"},
 	}
 }
 
-var finishers = []string{"update", "updates_map", "updates_struct", "updates_struct_nomodel", "update_column", "update_columns", "delete",
+var finishers = []string{"update", "updates_map", "updates_struct", "updates_struct_nomodel", "updates_structval_nomodel", "update_columns_struct_nomodel", "update_column", "update_columns", "delete",
 	"delete_inline_empty_array", "delete_inline_empty_slice", "delete_value", "delete_value_slice", "delete_value_model"}
 
 // finishers that make sense on the soft-delete model only
@@ -757,18 +867,22 @@ var targets = []struct {
 	name string
 	fins []string
 	pks  []int64
+	thin int // non-empty chains: one more sampling factor (complete for the empty chain)
 }{
-	{"table_only", []string{"update", "updates_map", "update_column", "update_columns", "delete", "delete_map"}, []int64{0}},
-	{"model_dest", []string{"delete"}, []int64{0, 3}},
-	{"slice", []string{"update", "updates_map", "update_column", "update_columns", "delete"}, []int64{0, 3}},
+	{"table_only", []string{"update", "updates_map", "update_column", "update_columns", "delete", "delete_map"}, []int64{0}, 0},
+	{"model_dest", []string{"delete"}, []int64{0, 3}, 0},
+	{"slice", []string{"update", "updates_map", "update_column", "update_columns", "delete"}, []int64{0, 3}, 0},
 	// (an Update whose Select names only associations has nothing to set and sends nothing: not
 	// generated)
-	{"assoc_select", []string{"delete", "delete_toys", "delete_tags"}, []int64{0, 1}},
-	{"hooked", []string{"update", "updates_map", "update_column", "update_columns", "delete"}, []int64{0, 3}},
-	{"model_slice_dest", []string{"delete"}, []int64{0, 3}},
-	{"soft2", []string{"update", "updates_map", "update_column", "update_columns", "delete"}, []int64{0, 3}},
-	{"softzero", []string{"update", "updates_map", "update_column", "update_columns", "delete"}, []int64{0, 3}},
-	{"composite", []string{"update", "updates_map", "update_column", "delete", "delete_model_dest"}, []int64{0, 3}},
+	{"assoc_select", []string{"delete", "delete_toys", "delete_tags"}, []int64{0, 1}, 0},
+	{"hooked", []string{"update", "updates_map", "update_column", "update_columns", "delete"}, []int64{0, 3}, 0},
+	{"model_slice_dest", []string{"delete"}, []int64{0, 3}, 0},
+	{"soft2", []string{"update", "updates_map", "update_column", "update_columns", "delete"}, []int64{0, 3}, 0},
+	{"softzero", []string{"update", "updates_map", "update_column", "update_columns", "delete"}, []int64{0, 3}, 0},
+	{"composite", []string{"update", "updates_map", "update_column", "delete", "delete_model_dest"}, []int64{0, 3}, 0},
+	{"slice_late", []string{"update", "updates_map", "update_column", "update_columns", "delete", "delete_model_dest"}, []int64{0, 3}, 4},
+	{"slice_ptrs_late", []string{"update", "updates_map", "update_column", "update_columns", "delete"}, []int64{0, 3}, 4},
+	{"array_late", []string{"update", "update_columns", "delete"}, []int64{0, 3}, 4},
 }
 
 func main() {
@@ -783,7 +897,7 @@ func main() {
 	out := lib.NewOut(a.Out, "C09")
 	out.PerFile = 300
 	add := func(kind string, in Input) {
-		if in.Target == "table_only" || strings.HasPrefix(in.Finisher, "delete_value") {
+		if in.Target == "table_only" || strings.HasPrefix(in.Finisher, "delete_value") || in.Finisher == "updates_structval_nomodel" {
 			// RETURNING into a destination that is not a model value is outside this property
 			// (gorm scans into Statement.ReflectValue.Addr(), which a map value does not have)
 			for _, s := range in.Steps {
@@ -792,10 +906,20 @@ func main() {
 				}
 			}
 		}
+		if hasDeco(in.Steps, "select_pk") && (in.Finisher == "updates_struct" || in.Finisher == "updates_structval_nomodel" || in.Target == "assoc_select") {
+			// (a selected key column of a struct update value that is not the model is ASSIGNED, zero
+			// value included: `SET id = 0` on several rows ends in a UNIQUE violation, not this property's
+			// matter; Select on the association owners means the associations)
+			return
+		}
 		o := func() (o Obs) {
 			defer func() {
 				if p := recover(); p != nil {
 					o.OtherErr = fmt.Sprintf("panic inside gorm: %v", p)
+					if os.Getenv("C09_DEBUG") != "" {
+						b, _ := json.Marshal(in)
+						fmt.Fprintf(os.Stderr, "PANIC %v on %s\n", p, b)
+					}
 				}
 			}()
 			return e.run(in)
@@ -842,7 +966,7 @@ func main() {
 	r := lib.NewRng(a.Seed)
 	al := alphabet()
 	// enumerated condition-free chains
-	maxLen, keep := 2, 4 // quick: every chain of length <= 2, one configuration in `keep` sampled
+	maxLen, keep := 2, 9 // quick: every chain of length <= 2, one configuration in `keep` sampled
 	if a.Tier == "thorough" {
 		maxLen, keep = 3, 6
 	}
@@ -864,7 +988,7 @@ func main() {
 				if !soft && strings.HasSuffix(f, "_softcol") {
 					continue
 				}
-				if strings.HasSuffix(f, "_softcol") && hasDeco(ch, "select") {
+				if strings.HasSuffix(f, "_softcol") && hasSelect(ch) {
 					continue // (Select("mark") leaves nothing to set: no statement, no error)
 				}
 				if soft && strings.HasPrefix(f, "delete_value") {
@@ -883,7 +1007,7 @@ func main() {
 						// read-then-write on one chain handle is documented misuse once a statement is
 						// actually built from it (the SELECT's FROM clause stays); it is generated only
 						// where the write must be rejected before anything is built
-						if len(ch) <= 1 && pk == 0 && al == "off" && f != "updates_struct_nomodel" {
+						if len(ch) <= 1 && pk == 0 && al == "off" && !strings.HasSuffix(f, "_nomodel") {
 							add("enum", Input{Soft: soft, Allow: al, Finisher: f, PK: pk, Steps: ch, QueryFirst: true})
 							for _, rk := range []string{"", "noop_update"} {
 								for _, ar := range []string{"session", "with_context", "unscoped"} {
@@ -896,15 +1020,9 @@ func main() {
 				}
 			}
 		}
-		hasSelect := false
-		for _, st := range ch {
-			if st.Deco == "select" {
-				hasSelect = true // Select("mark") leaves nothing to set: no statement, no error
-			}
-		}
 		for _, f := range pkFinishers {
-			if hasSelect {
-				break
+			if hasSelect(ch) || hasDeco(ch, "omit_pk") || hasDeco(ch, "omit_pk_field") {
+				break // Select("mark") / Omit("id") leave nothing to set: no statement, no error
 			}
 			for _, soft := range []bool{false, true} {
 				if len(ch) > 1 && !r.Chance(1, keep) {
@@ -929,6 +1047,9 @@ func main() {
 					for _, al := range allows {
 						for _, pk := range tg.pks {
 							if len(ch) > 1 && !r.Chance(1, keep*3) {
+								continue
+							}
+							if len(ch) > 0 && tg.thin > 0 && !r.Chance(1, tg.thin) {
 								continue
 							}
 							add("enum", Input{Soft: soft, Allow: al, Finisher: f, PK: pk, Steps: ch, Target: tg.name})
@@ -969,6 +1090,33 @@ func main() {
 			in.Steps = append(in.Steps, lib.Pick(r, []Step{{Deco: "order"}, {Deco: "limit"}, {Deco: "session_plain"}, {Deco: "with_context"}, {Deco: "session_dryrun"}}))
 		}
 		add("read-then-delete", in)
+	}
+	// one condition on zero values only, in every Go value that carries it (typed maps with blank /
+	// zero / nil values, column + value, Valuers, a struct with its zero columns selected): a non-empty
+	// map is a condition, whatever its values
+	{
+		atoms := whr.ZeroValueAtoms()
+		fins := []string{"update", "updates_map", "updates_struct", "update_column", "update_columns", "delete"}
+		n := 0
+		for _, u := range whr.ZeroValueUnits() {
+			for _, k := range []string{"where", "not", "or"} {
+				for _, soft := range []bool{false, true} {
+					for j := 0; j < 2; j++ {
+						n++
+						in := Input{Soft: soft, Allow: "off", Finisher: fins[n%len(fins)], Atoms: atoms,
+							Steps: []Step{{Call: &whr.Call{Kind: k, Unit: u}}}}
+						if j == 1 {
+							in.Steps = append([]Step{lib.Pick(r, al)}, in.Steps...)
+						}
+						add("zero-value-condition", in)
+						if in.Finisher == "delete" && k == "where" {
+							in.InlineLast = true
+							add("zero-value-condition", in)
+						}
+					}
+				}
+			}
+		}
 	}
 	// random chains with at least one real condition mixed with condition-free calls
 	budget := 500
@@ -1043,7 +1191,7 @@ func main() {
 		if !in.QueryFirst && in.Target == "" && r.Chance(1, 6) {
 			in.Wrap = "begin"
 		}
-		if softcol && hasDeco(in.Steps, "select") {
+		if softcol && hasSelect(in.Steps) {
 			in.Finisher = "update" // (Select("mark") leaves the soft-delete column nothing to set)
 		}
 		if !in.InlineLast && !in.QueryFirst && r.Chance(1, 4) {
